@@ -7,7 +7,7 @@ import itertools
 from ..final import check_call
 from ..kernel import Chooser
 from ..lazy import seq
-from ..seqcheck import explore_task, nest_tasks
+from ..seqcheck import explore_task, nest_tasks, run_world
 from ..tracelib import split_calls
 
 PID = "C04"
@@ -23,7 +23,7 @@ META = {
              "budget (bounded deviations), on 8 call-style entry points; identity (not equality) "
              "of the delivered object is checked; distinct = (end kind, reason, attempts, "
              "failure sequence)"),
-    "assumptions": ["attempt_timeout_s=None",
+    "assumptions": ["attempt_timeout_s=None except in the attempt-timeout families (owned executor / virtual loop) and in surface-late-attempt (the library's real threads, event-sequenced; DESIGN 11.8)",
                     "aborted runs are judged by C13, cancellation-type endings by C13"],
     "min_outcomes": {"quick": 10},
 }
@@ -61,6 +61,18 @@ def tasks(tier):
                    loop=e.startswith("Async") or e == "adeco",
                    sleeper_async=e.startswith("Async") or e == "adeco")
         out.append({"family": "surface-attempt-timeout", "cfg": cfg, "entry": e, "bound": 1})
+    # the sync attempt timeout on the library's REAL threads: the attempt that overran is still
+    # running; it finishes (value, rejected value or exception) during the following backoff
+    # sleep, after the next attempt has started, or after the call has ended
+    late = ["ok", "x:T"] if tier == "quick" else ["ok", "x:T", "r:T"]
+    for M, e in itertools.product([2] if tier == "quick" else [2, 3],
+                                  ["Retry.call", "Policy.call", "RetryPolicy.call", "deco", "Retry.context"]):
+        cfg = dict(M=M, alphabet=["ok", "x:T"] if tier == "quick" else ["ok", "x:T", "r:T"],
+                   attempt_timeout=1, durs=[0, 10], real_executor=True, late_menu=late,
+                   max_unknown=None, handler="call" if e != "deco" else None,
+                   handler_menu=["SLEEP"], sleeper="call" if e != "deco" else "policy")
+        out.append({"family": "surface-late-attempt", "cfg": cfg, "entry": e, "bound": 1,
+                    "selfcheck": 0})
     # async: the successful attempt's return value is itself an awaitable object (a handle the
     # caller wants back, e.g. a Task or a lazy response): it is returned, not awaited
     for M, rcf, e in itertools.product([1, 2, 3], [False, True],
@@ -132,9 +144,8 @@ def monitor(w, cfg):
 
 def run_plain(cfg, entry, ch):
     full = seq.mkcfg(**cfg)
-    w = seq.World(full, ch)
-    w.call(entry)
-    return w, monitor(w, full)
+    w, judge = run_world(full, entry, ch)
+    return w, (monitor(w, full) if judge else [])
 
 
 def run_task(task, seed):
